@@ -35,7 +35,10 @@ WORKLOADS = ["producer_plain", "producer_idempotent", "producer_txn", "consumer_
 STATES = ["healthy", "node_refusing", "node_blackholed", "coordinator_refusing", "coordinator_blackholed", "failover",
           "commits_refused", "fenced",
           # the host accepts connections but never answers: stop() lands inside connection handshakes
-          "node_silent"]
+          "node_silent",
+          # the coordinator starts refusing the member's heartbeats with GROUP_AUTHORIZATION_FAILED: the error is handed
+          # to the application, which stops polling; stop() then finds an error nobody has picked up yet
+          "group_unauthorized"]
 CFG = {"request_timeout_ms": 400, "retry_backoff_ms": 20, "session_timeout_ms": 1000, "rebalance_timeout_ms": 800,
        "heartbeat_interval_ms": 100}
 RUN_FOR = 1.2
@@ -84,6 +87,8 @@ async def _scenario(workload, state, stop_at, obs, loop, net):
         # the transaction coordinator fences the producer (INVALID_PRODUCER_EPOCH on its second AddPartitionsToTxn): the
         # sender task ends with a fatal error long before stop() is called
         c.set_faults([{"sel": "add_partitions", "k": 1, "act": "error", "code": 47}])
+    if state == "group_unauthorized":
+        c.set_faults([{"sel": "heartbeat", "k": k, "act": "error", "code": 30} for k in range(3, 80)])
     if state == "commits_refused":
         # the coordinator answers every OffsetCommit but the first with REBALANCE_IN_PROGRESS (the member's
         # generation stays valid, so it is still a member that has to leave on stop())
@@ -419,6 +424,8 @@ def cases(shard, nshards, stride):
             if s == "commits_refused" and w not in ("consumer_group", "consumer_group_unsub"):
                 continue
             if s == "fenced" and w != "producer_txn":
+                continue
+            if s == "group_unauthorized" and w not in ("consumer_group", "consumer_group_unsub"):
                 continue
             if i % nshards != shard and stride is None:
                 pass
